@@ -149,6 +149,7 @@ static int P;                    /* 1..4 = C01..C04, 11 = C11, 15 = C15 */
 static const char *OOMCTX = "-";  /* operation that last received an injected allocation failure */
 static uint64_t USALT;           /* salt: universe + ordering, so distinct-hashes of different configurations differ */
 
+static uint64_t structure_check(bool report);
 static bool judge(const char *prop, const char *key, const char *fmt, ...) __attribute__((format(printf, 3, 4)));
 static bool judge(const char *prop, const char *key, const char *fmt, ...) {
     char msg[600]; va_list ap; va_start(ap, fmt); vsnprintf(msg, sizeof msg, fmt, ap); va_end(ap);
@@ -157,6 +158,9 @@ static bool judge(const char *prop, const char *key, const char *fmt, ...) {
     if (!strcmp(prop, VF.prop)) { vf_viol(prop, key, "%s", msg); return true; }
     vf_count("other_property_oracle_mismatch", 1);
     if (VF.verbose) fprintf(stderr, "  (other property %s %s: %s)\n", prop, key, msg);
+    /* another property's oracle disagreed (e.g. the map oracle of C01 during a C02 run): this property's own walker still gets its look at the tree */
+    static bool in_own_walk;
+    if (P == 2 && T && !in_own_walk) { in_own_walk = true; abandon = false; structure_check(true); abandon = true; in_own_walk = false; }
     return true;
 }
 
@@ -177,7 +181,7 @@ static void cb_drop(cbuf_t *c) {   /* scribble, then release: the table must not
 static int TREE_OPT;      /* C15 phase: alternate the thread-safe flag so that a lock left held by a failed call is observable */
 static void table_new(void) {
     ledger_mark = vf_ledger_mark();
-    T = qtreetbl(TREE_OPT);
+    { static unsigned long tctr; tctr++; T = qtreetbl(TREE_OPT | ((P != 15 && (tctr & 1)) ? QTREETBL_THREADSAFE : 0)); }
     if (!T) { fprintf(stderr, "qtreetbl() failed\n"); exit(2); }
     if (ORD[ORDI].installed) T->set_compare(T, ORD[ORDI].installed);
     MCMP = ORD[ORDI].model;
@@ -256,6 +260,7 @@ static bool val_ok(const void *d, size_t sz, int p) { return ME[p].vl == 0 ? (d 
 /* optional out-parameters are NULL in one call out of four; the variable is preset to what the callee would have stored */
 static size_t *optout(size_t *p, size_t expect) { if (rng_chance(&R, 1, 4)) { *p = expect; vf_count("calls_with_null_out_parameter", 1); return NULL; } return p; }
 static void content_check(void) {
+    { static unsigned long pc; if (T->qmutex && P != 15 && (++pc % 29) == 0 && !vf_lock_probe(T->qmutex)) { judge(VF.prop, "unusable-for-other-threads", "a second thread can not take the lock of the (thread-safe) table: an earlier call returned with it held"); return; } }
     if (DEBUG_NOW()) { T->debug(T, DEVNULL); vf_count("debug_prints", 1); }
     vf_count("content_compares", 1);
     if (T->size(T) != (size_t)MN) { judge("C01", "size", "size()=%zu model=%d", T->size(T), MN); return; }
@@ -289,11 +294,12 @@ static void content_check(void) {
 static void after_mutation(qtreetbl_obj_t *oldroot) {
     if (T->root != oldroot) root_changed = true;
 }
-static unsigned char VBUF[400];
+static unsigned char VBUF[2400];
 static size_t gen_value(bool as_string) {
     size_t l;
     uint32_t c = rng_below(&R, 10);
     if (c < 5) l = 1 + rng_below(&R, 12); else if (c < 9) l = 1 + rng_below(&R, 80); else l = 200 + rng_below(&R, 101);
+    if (as_string && rng_chance(&R, 1, 40)) l = (size_t[]){1023, 1024, 1025, 1500, 2048}[rng_below(&R, 5)];     /* the formatted put functions retry with a larger buffer from 1024 bytes on */
     for (size_t i = 0; i < l; i++) VBUF[i] = as_string ? (unsigned char)(1 + rng_below(&R, 255)) : (rng_chance(&R, 1, 4) ? 0 : (unsigned char)rng_below(&R, 256));
     valctr++;
     if (as_string) { int n = snprintf((char *)VBUF, l + 1 < 12 ? l + 1 : 12, "%ld", valctr); (void)n; for (size_t i = 0; i < l; i++) if (!VBUF[i]) VBUF[i] = '~'; VBUF[l] = 0; return l + 1; }
@@ -387,6 +393,22 @@ static void op_remove(int id) {
 static void op_clear(void) {
     vf_log("clear");
     T->clear(T); m_clear(); vf_count("clear", 1); root_changed = true;
+}
+/* re-put of a key with (a prefix of) its own stored bytes, through the pointer a non-copying get handed out */
+static void op_reput_internal(int id) {
+    ukey_t *k = &UK[id]; bool f; int p = m_find(k->k, k->kl, &f);
+    if (!f || ME[p].vl == 0) return;
+    size_t sz = 0; void *d = T->getobj(T, k->k, k->kl, &sz, false);
+    if (!d || sz != ME[p].vl) { judge("C01", "get-wrong", "non-copying get of key %d: size %zu expected %zu", id, sz, ME[p].vl); return; }
+    size_t nl = rng_chance(&R, 1, 4) ? sz : 1 + rng_below(&R, (uint32_t)sz);
+    unsigned char *expect = vf_xdup(d, nl);
+    vf_log("put k%d with its own stored bytes, length %zu of %zu", id, nl, sz);
+    qtreetbl_obj_t *oldroot = T->root;
+    bool r = T->putobj(T, k->k, k->kl, d, nl);
+    if (!r) judge("C01", "put-failed", "re-put of key %d with its own bytes returned false (errno %d)", id, errno);
+    m_put(id, expect, nl); hm_free(expect);
+    vf_count("puts_from_the_stored_pointer", 1);
+    after_mutation(oldroot);
 }
 static void op_invalid(void) {
     vf_log("invalid-args");
@@ -585,11 +607,18 @@ static void exhaustive_transition_oracle(int opid) {
     (void)opid;
 }
 
+/* (ordering, key class) of a bounded-exhaustive configuration: the library's own default comparator (ordering 0) is paired with the key
+ * classes in which its size tie-break matters (len-twins: proper prefixes without a terminator; binary with embedded NULs; prefix family) */
+static int cfg_kcls(int cfg) {
+    static const int KC[16] = {5, 0, 1, 2, 3, 6, 3, 4, 5, 0, 1, 6, 2, 5, 3, 4};
+    int k = cfg < 16 ? KC[cfg] : (cfg / NORD + cfg) % NKCLS;
+    if (cfg % NORD == ORD_CI) k = KCLS_ALIAS; else if (k == KCLS_ALIAS) k = 1;
+    return k;
+}
 static void phase_exhaustive(int U) {
     int cfg = VF.shard;
     ORDI = cfg % NORD;
-    int kcls = (cfg / NORD + cfg) % NKCLS;
-    if (ORDI == ORD_CI) kcls = KCLS_ALIAS; else if (kcls == KCLS_ALIAS) kcls = 1;
+    int kcls = cfg_kcls(cfg);
     long caseno = 1000000000L + cfg;            /* one pseudo-case per configuration */
     if (VF.only_case >= 0 && VF.only_case != caseno) return;
     if (VF.only_case < 0 && VF.start_case > caseno) return;
@@ -694,6 +723,7 @@ static void history(long caseno) {
     if (P == 2 && ORDI == 0) ORDI = 1;           /* cost is only observable through an installed comparator */
     int kcls = (int)rng_below(&R, NKCLS);
     if (ORDI == ORD_CI && rng_chance(&R, 2, 3)) kcls = KCLS_ALIAS;
+    if (ORDI == 0 && rng_chance(&R, 1, 2)) kcls = (int[]){5, 3, 2}[rng_below(&R, 3)];     /* the default comparator with keys whose order hangs on its size tie-break */
     static const int US[] = {4, 16, 64, 1024};
     int U = US[rng_below(&R, 4)];
     int nops = VF.thorough ? 5000 : 2000;
@@ -752,7 +782,7 @@ static void history(long caseno) {
             else if (c < 92) op_get(pick_key());
             else if (c < 94) { vf_log("size"); if (T->size(T) != (size_t)MN) judge("C01", "size", "size()=%zu model=%d", T->size(T), MN); }
             else if (c < 95) { if (rng_chance(&R, 1, 6)) { op_clear(); mut = true; } else op_get(pick_key()); }
-            else if (c < 96) op_invalid();
+            else if (c < 96) { if (rng_chance(&R, 1, 2)) op_invalid(); else { op_reput_internal(pick_key()); mut = true; } }
             else if (P == 11 && c < 98) op_walk(-1, rng_chance(&R, 1, 2));
             else if (P == 11) op_nearest((int)rng_below(&R, (uint32_t)NU), rng_chance(&R, 1, 2), 1, 0);
             else op_get(pick_key());
@@ -803,6 +833,28 @@ static void epoch_sweep(long caseno, int kind, int k) {
     }
     if (!abandon) op_walk(-1, false);
     vf_count(abandon ? "histories_abandoned" : "epoch_sweep_histories", 1);
+    table_free(); m_clear(); universe_free();
+}
+
+/* C03 directed: a long abandoned walk, then exactly m minimal traversal starts (the epoch comes back to the value the long walk used),
+ * then an audited walk; on a fresh table (stamps all 0), after a complete walk, and with a put/remove after the long walk */
+static void epoch_return(long caseno, int m, int variant) {
+    rng_seed(&R, VF.seed, (uint64_t)caseno);
+    ORDI = (int)rng_below(&R, NORD); int kcls = 1 + (int)rng_below(&R, 2);
+    universe_make(&R, kcls, 14 + (int)rng_below(&R, 10));
+    vf_case_begin(caseno, "epoch return: long abandoned walk + %d minimal starts, variant %d, %d keys, ordering=%s", m, variant, NU, ORD[ORDI].name);
+    table_new();
+    for (int i = 0; i < NU && !abandon; i++) op_put(i);
+    for (int L = 2; L < MN && !abandon; L += 1 + (int)rng_below(&R, 3)) {
+        if (variant == 1) op_walk(-1, false);
+        op_walk(L, (L & 1) != 0);                                   /* abandoned after L keys */
+        if (variant == 2 && !abandon) { int id = (int)rng_below(&R, (uint32_t)NU); op_remove(id); if (!abandon) op_put(id); }
+        for (int j = 0; j < m && !abandon; j++) { if (variant == 3 && (j & 1)) op_nearest((int)rng_below(&R, (uint32_t)NU), false, 0, 0); else op_walk(1, false); }
+        if (!abandon) op_walk(-1, false);                           /* audited */
+        if (!abandon) op_walk(-1, true);
+        vf_count("evaluations", 1);
+    }
+    vf_count(abandon ? "histories_abandoned" : "epoch_return_histories", 1);
     table_free(); m_clear(); universe_free();
 }
 
@@ -866,8 +918,7 @@ static bool oom_lock_left_held(void) {
 static void phase_oom(int U) {
     int cfg = VF.shard;
     ORDI = cfg % NORD;
-    int kcls = (cfg / NORD + cfg) % NKCLS;
-    if (ORDI == ORD_CI) kcls = KCLS_ALIAS; else if (kcls == KCLS_ALIAS) kcls = 1;
+    int kcls = cfg_kcls(cfg);
     long caseno = 2000000000L + cfg;
     if (VF.only_case >= 0 && VF.only_case != caseno) return;
     if (VF.only_case < 0 && VF.start_case > caseno) return;
@@ -953,6 +1004,11 @@ int main(int argc, char **argv) {
             if (!VF.thorough && !(k >= 225 && k <= 290) && (k % 16)) continue;
             if (vf_mine(c)) epoch_sweep(c, kind, k);
         }
+    }
+    if (P == 3 || P == 4) {
+        static const int MS[] = {252, 253, 254, 255, 256, 257, 508, 509, 510, 511, 512};
+        long c = 800000;
+        for (int variant = 0; variant < 4; variant++) for (int mi = 0; mi < 11; mi++, c++) if (vf_mine(c)) epoch_return(c, MS[mi], variant);
     }
     long nbig = vf_arg_long("big", 0);
     for (long c = 0; c < nbig; c++) if (vf_mine(500000 + c)) big_history(500000 + c, (int)vf_arg_long("bign", 20000));
